@@ -228,7 +228,8 @@ static void runScenario(const std::string& prop, size_t idx, const Scenario& sc,
 
 // ---- C02 / C03 ----
 // behaviour of the addressed participant after ebusd won arbitration
-// variant: 0 conformant, 1 NAK then ACK, 2 NAK NAK, 3 response bad CRC then good, 4 bad twice
+// variant: 0 conformant, 1 NAK then ACK, 2 NAK NAK, 3 response bad CRC then good, 4 bad twice,
+//          5 bad, bad, then a good one offered, 6 bad three times
 static Script responder(const Bytes& master, const Bytes& resp, int variant) {
   int n1 = (int)ref::wirePart(master).size() - 1;  // symbols after QQ incl. CRC
   uint8_t zz = master[1];
@@ -241,10 +242,14 @@ static Script responder(const Bytes& master, const Bytes& resp, int variant) {
     if (variant == 2) { s.push_back(send(Bytes{ref::NAK})); return s; }
   }
   if (ref::isMaster(zz)) { s.push_back(send(Bytes{ref::ACK})); s.push_back(await(1)); return s; }
-  if (variant == 3 || variant == 4) {
+  if (variant >= 3 && variant <= 6) {
     s.push_back(send(cat(Bytes{ref::ACK}, ref::wirePart(resp, 0x01))));
     s.push_back(await(1));  // NAK expected
-    s.push_back(send(ref::wirePart(resp, variant == 4 ? 0x01 : 0)));
+    s.push_back(send(ref::wirePart(resp, variant == 3 ? 0 : 0x01)));
+    if (variant >= 5) {
+      s.push_back(await(1));  // a conformant master closes with SYN here; a second NAK lets the slave go on
+      s.push_back(send(ref::wirePart(resp, variant == 5 ? 0 : 0x01)));
+    }
   } else {
     s.push_back(send(cat(Bytes{ref::ACK}, ref::wirePart(resp))));
   }
@@ -278,7 +283,7 @@ static std::vector<Scenario> scenariosC02(bool thorough, const vp::Args& A) {
       Bytes m = qi < rq.size() ? ref::unhex(rq[qi].m) : (qi == rq.size() ? crcA9 : crcAA);
       Bytes r = qi < rq.size() ? ref::unhex(rq[qi].s) : withCrc(ref::unhex("0200ff"), 1, qi == rq.size() ? 0xAA : 0xA9);
       bool slaveDst = m[1] != ref::BROADCAST && !ref::isMaster(m[1]);
-      int nvar = m[1] == ref::BROADCAST ? 1 : (slaveDst ? 5 : 3);
+      int nvar = m[1] == ref::BROADCAST ? 1 : (slaveDst ? 7 : 3);
       for (int var = 0; var < nvar; var++) {
         for (int retr = 0; retr < 2; retr++) {
           if (retr == 1 && var != 0 && !thorough) continue;
@@ -557,6 +562,62 @@ static std::vector<Scenario> scenariosC20(bool thorough, const vp::Args& A) {
   return v;
 }
 
+
+// ---- C03 clause (c): entitlement of acknowledge/response while answering ----
+static std::vector<Scenario> scenariosC03Answer(bool thorough) {
+  std::vector<Scenario> v;
+  const uint8_t own = 0x31;
+  std::vector<AnswerSpec> U = answerUniverse(own);
+  std::vector<std::vector<int>> sets = {{0}, {1}, {1, 2}, {1, 3}, {4}, {0, 5}};
+  if (thorough) { sets.push_back({0, 1, 2}); sets.push_back({2, 3}); sets.push_back({4, 5}); }
+  for (int enh = 0; enh < 2; enh++) {
+    for (size_t si = 0; si < sets.size(); si++) {
+      std::vector<Bytes> tels;
+      for (int ai : sets[si]) {
+        const AnswerSpec& a = U[ai];
+        for (int extra = 0; extra < 2; extra++) {
+          Bytes d = a.id; for (int j = 0; j < extra; j++) d.push_back(0x07);
+          for (uint8_t dst : {a.dst, (uint8_t)(a.dst ^ 0x40), (uint8_t)0x08}) {  // the answered address, one a single bit away, another slave
+            Bytes m = {0x10, dst, a.pb, a.sb, (uint8_t)d.size()};
+            m.insert(m.end(), d.begin(), d.end());
+            bool dup = false; for (auto& t : tels) if (t == m) dup = true;
+            if (!dup) tels.push_back(m);
+          }
+          // same destination, command without registered answer
+          Bytes m2 = {0x10, a.dst, a.pb, (uint8_t)(a.sb ^ 0x02), (uint8_t)d.size()};
+          m2.insert(m2.end(), d.begin(), d.end());
+          bool dup = false; for (auto& t : tels) if (t == m2) dup = true;
+          if (!dup) tels.push_back(m2);
+        }
+      }
+      for (size_t ti = 0; ti < tels.size(); ti++) {
+        for (int var : {0, 1, 3}) {
+          Scenario s;
+          s.enhanced = enh; s.own = own; s.answer = true;
+          for (int ai : sets[si]) s.answers.push_back(U[ai]);
+          AnswerMonitor probe(nullptr, s);
+          std::vector<int> c = probe.lookup(tels[ti]);
+          int rs = c.empty() ? 1 : (int)ref::wirePart(s.answers[c[0]].answer).size();
+          s.foreign.push_back(askScript(tels[ti], rs, var));
+          s.tailSyns = 2;
+          // corrupted symbols may turn a foreign telegram into one that looks answered: registered addresses,
+          // command and id bytes are part of the alphabet
+          for (int ai : sets[si]) { s.alphabet.push_back(U[ai].dst); s.alphabet.push_back(U[ai].sb); if (!U[ai].id.empty()) s.alphabet.push_back(U[ai].id[0]); }
+          std::sort(s.alphabet.begin(), s.alphabet.end());
+          s.alphabet.erase(std::unique(s.alphabet.begin(), s.alphabet.end()), s.alphabet.end());
+          s.k = (thorough && var == 1) ? 2 : 1;
+          s.c = 0;
+          s.insertDrop = thorough;
+          s.answerEntitlement = true;
+          s.name = std::string(enh ? "enh" : "plain") + "/answering/set" + std::to_string(si) + "/tel" + ref::hex(tels[ti]) + "/var" + std::to_string(var) + "/k" + std::to_string(s.k);
+          v.push_back(s);
+        }
+      }
+    }
+  }
+  return v;
+}
+
 // ---- C01 ----
 static std::vector<Scenario> scenariosC01(bool thorough, const vp::Args& A) {
   std::vector<Scenario> v;
@@ -639,7 +700,11 @@ int main(int argc, char** argv) {
     mf = [](World& w, VSink* s) { return std::vector<Monitor*>{new AnswerMonitor(s, w.sc)}; };
   } else if (prop == "C03") {
     scs = scenariosC03(th, A);
-    mf = [](World& w, VSink* s) { return std::vector<Monitor*>{new ActiveMonitor(s, w.sc, false, true)}; };
+    { std::vector<Scenario> a = scenariosC03Answer(th); scs.insert(scs.end(), a.begin(), a.end()); }
+    mf = [](World& w, VSink* s) {
+      if (w.sc.answerEntitlement) return std::vector<Monitor*>{new AnswerMonitor(s, w.sc, "C03/answering/", true)};
+      return std::vector<Monitor*>{new ActiveMonitor(s, w.sc, false, true)};
+    };
   } else {
     fprintf(stderr, "unknown --prop %s\n", prop.c_str());
     return 2;
